@@ -253,3 +253,51 @@ Example ex_try_inc :
   match q_try_inc ex_qstate 3%N [(1%N, 20); (2%N, 5)] with Some s' => queue_max_ok_after s' 3%N [(1%N, 20); (2%N, 5)] | None => false end = true /\
   q_try_inc ex_qstate 3%N [(1%N, 21)] = None /\ q_try_inc ex_qstate 3%N [(3%N, 1)] = None /\ q_try_inc ex_qstate 3%N [(2%N, 6)] = None.
 Proof. vm_compute. repeat split. Qed.
+
+(* ------------------------------------------------------------------ C02.11: GetMaxResource / internalGetMax
+   A transcription of objects/queue.go GetMaxResource (recursion over the parent chain, with fuel) and
+   internalGetMax. NOT tied to the code by the correspondence run (the effective maximum is not observed). *)
+Definition internalGetMax (q : oqueue) (parentLimit : ores) : ores :=
+  match parentLimit with
+  | None => q_max q
+  | Some _ => match q_max q with None => parentLimit | Some _ => ComponentWiseMin parentLimit (q_max q) end
+  end.
+Fixpoint get_max_fuel (fuel : nat) (s : ostate) (qid : N) : ores :=
+  match fuel with
+  | O => None
+  | S f => match find_queue s qid with
+           | None => None
+           | Some q => internalGetMax q (if (q_parent q =? 0)%N then None else get_max_fuel f s (q_parent q))
+           end
+  end.
+Definition GetMaxResource (s : ostate) (qid : N) : ores := get_max_fuel (S (length (s_queues s))) s qid.
+
+Lemma internalGetMax_wf q pl : owf pl -> owf (q_max q) -> owf (internalGetMax q pl).
+Proof. intros Wp Wq. unfold internalGetMax. destruct pl as [p|]; [|assumption]. destruct (q_max q) as [m|] eqn:E; [|assumption].
+  apply ComponentWiseMin_wf; assumption. Qed.
+(* the effective limit is never looser than the parent's effective limit, nor than the queue's own maximum *)
+Lemma internalGetMax_le_parent q pl k l : owf pl -> owf (q_max q) -> get (oget pl) k = Some l ->
+  exists v, get (oget (internalGetMax q pl)) k = Some v /\ v <= l.
+Proof. intros Wp Wq El. unfold internalGetMax. destruct pl as [p|]; [|discriminate]. destruct (q_max q) as [m|] eqn:E.
+  - rewrite ComponentWiseMin_get by assumption. rewrite El. cbn [oget cwmin_at].
+    destruct (get m k) as [y|]; eexists; (split; [reflexivity|lia]).
+  - exists l. split; [assumption|lia]. Qed.
+Lemma internalGetMax_le_own q pl k l : owf pl -> owf (q_max q) -> get (oget (q_max q)) k = Some l ->
+  exists v, get (oget (internalGetMax q pl)) k = Some v /\ v <= l.
+Proof. intros Wp Wq El. unfold internalGetMax. destruct pl as [p|]; [|exists l; split; [assumption|lia]].
+  destruct (q_max q) as [m|] eqn:E; [|discriminate].
+  rewrite ComponentWiseMin_get by assumption. cbn [oget] in *. rewrite El. unfold cwmin_at.
+  destruct (get p k) as [y|]; eexists; (split; [reflexivity|lia]). Qed.
+Lemma get_max_fuel_wf s : (forall q, In q (s_queues s) -> owf (q_max q)) -> forall fuel qid, owf (get_max_fuel fuel s qid).
+Proof. intros H. induction fuel as [|f IH]; intros qid; [apply wf_nil|]. cbn [get_max_fuel].
+  destruct (find_queue s qid) as [q|] eqn:E; [|apply wf_nil]. destruct (find_queue_some _ _ _ E) as [Hin _].
+  apply internalGetMax_wf; [|auto]. destruct (q_parent q =? 0)%N; [apply wf_nil|apply IH]. Qed.
+Theorem effective_max_monotone s fuel qid q k l : (forall q, In q (s_queues s) -> owf (q_max q)) ->
+  find_queue s qid = Some q -> (q_parent q =? 0)%N = false ->
+  get (oget (get_max_fuel fuel s (q_parent q))) k = Some l ->
+  exists v, get (oget (get_max_fuel (S fuel) s qid)) k = Some v /\ v <= l.
+Proof. intros H E Hp El. cbn [get_max_fuel]. rewrite E, Hp. destruct (find_queue_some _ _ _ E) as [Hin _].
+  apply internalGetMax_le_parent; [apply get_max_fuel_wf; assumption|auto|assumption]. Qed.
+Example ex_effective_max : GetMaxResource ex_qstate 3%N = Some [(1%N, 50); (2%N, 8)] /\
+  GetMaxResource ex_qstate 4%N = Some [(1%N, 10); (2%N, 8)] /\ GetMaxResource ex_qstate 1%N = Some [(1%N, 100); (2%N, 8)].
+Proof. vm_compute. repeat split. Qed.
